@@ -162,9 +162,21 @@ Qed.
 
 Notation ghost := (gmap N Z).
 
+(* the entry of a key, 0 when absent *)
+Definition gget (gh : ghost) (k : N) : Z := default 0 (gh !! k).
+
+Lemma gget_insert gh k z : gget (<[k := z]> gh) k = z.
+Proof. unfold gget. rewrite lookup_insert. reflexivity. Qed.
+
+Lemma gget_insert_ne gh k k' z : k <> k' -> gget (<[k := z]> gh) k' = gget gh k'.
+Proof. intros Hne. unfold gget. rewrite lookup_insert_ne by exact Hne. reflexivity. Qed.
+
+Lemma gget_empty k : gget ∅ k = 0.
+Proof. unfold gget. rewrite lookup_empty. reflexivity. Qed.
+
 Definition ghost_step (s : state) (m : msg) (gh : ghost) : ghost :=
   match issued_key s m with
-  | Some (bk, iss) => <[bk := gh !!! bk + issued_units iss]> gh
+  | Some (bk, iss) => <[bk := gget gh bk + issued_units iss]> gh
   | None => gh
   end.
 
@@ -174,14 +186,14 @@ Definition ghost_deliver (e : env) (s : state) (m : msg) (gh : ghost) : ghost :=
 
 (* every batch total equals its ghost entry; keys without a supply row have entry 0 *)
 Definition ghost_ok (s : state) (gh : ghost) : Prop :=
-  forall k, gh !!! k = match supplies s !! k with Some su => T su | None => 0 end.
+  forall k, gget gh k = match supplies s !! k with Some su => T su | None => 0 end.
 
 Theorem ghost_step_ok s m s' gh : totals_effect s m s' -> ghost_ok s gh -> ghost_ok s' (ghost_step s m gh).
 Proof.
   unfold totals_effect, ghost_step. intros He Hg k. destruct (issued_key s m) as [[bk iss]|].
   - destruct He as (Hoth & su' & E' & HT). destruct (decide (k = bk)) as [->|Hne].
-    + rewrite lookup_total_insert, E', HT, (Hg bk). reflexivity.
-    + rewrite lookup_total_insert_ne by congruence. rewrite (Hoth k Hne). apply Hg.
+    + rewrite gget_insert, E', HT, (Hg bk). reflexivity.
+    + rewrite gget_insert_ne by congruence. rewrite (Hoth k Hne). apply Hg.
   - rewrite (Hg k). specialize (He k). destruct (supplies s !! k), (supplies s' !! k); try contradiction; [lia | reflexivity].
 Qed.
 
@@ -266,7 +278,7 @@ Qed.
 (* C02 along runs: after any history, every batch total is what the accepted issuing messages issued *)
 Theorem ghost_run_ok authority g gh0 h s gh :
   Inv_run g -> ghost_ok g gh0 -> ghost_run authority (g, gh0) h = LOk (s, gh) ->
-  forall k su, supplies s !! k = Some su -> T su = gh !!! k.
+  forall k su, supplies s !! k = Some su -> T su = gget gh k.
 Proof.
   intros Hg H0 H k su Hk.
   assert (Hr : greaches g gh0 s gh).
